@@ -126,19 +126,79 @@ class SpecProp(Prop):
         return None
 
 
+def bfs_tour(n, cap, nlab, ndat, maxstates=200000):
+    """breadth-first closure of the model's state space over a tiny domain, as one
+    history that visits every (state, call) transition once (modeldrv bfs)"""
+    import subprocess
+    r = subprocess.run([engine.MODEL_BIN, "bfs", str(n), str(cap), str(nlab), str(ndat), str(maxstates)],
+                       capture_output=True, text=True, timeout=3600)
+    lines = r.stdout.split("\n")
+    info = dict(kv.split("=") for kv in lines[0].split()[2:])
+    hid = lines[1].split()[1]
+    ops = [l for l in lines[2:] if l]
+    return History(hid, n, ops, {"bfs": True, "states": int(info["states"]), "transitions": int(info["transitions"]),
+                                 "closed": info["closed"] == "true", "domain": "ids 0..%d, %d label(s), %d datum/data, N=%d" % (cap - 1, nlab, ndat, n)})
+
+
+def bfs_linear(h, idx):
+    """the linear history (one handle) that leads to call number idx of a bfs tour"""
+    ops = h.ops
+    chain = []
+    i = idx
+    while i > 0:
+        if ops[i].startswith("CLONE"):        # the failing line is itself a CLONE: move to the op before
+            i -= 1
+            continue
+        chain.append(ops[i])
+        src = ops[i - 1].split()[1]          # "CLONE sK t"
+        if src == "s0":
+            break
+        j = next(k for k in range(i - 1, -1, -1) if ops[k] == "CLONE t %s" % src)
+        i = j - 1
+    chain.reverse()
+    lin = [ops[0].replace("s0", "g")] + [" ".join([c.split()[0], "g"] + c.split()[2:]) for c in chain]
+    return History(h.hid + "-path", h.n, lin, {"from_bfs": True})
+
+
+class BfsMixin:
+    """adds the tiny-domain closures to a history check and reports them in the evidence"""
+    bfs_quick = [(1, 2, 1, 1), (1, 3, 1, 1)]
+    bfs_thorough = [(1, 2, 1, 1), (1, 3, 1, 1), (2, 3, 2, 1), (1, 3, 1, 2)]
+
+    def bfs_histories(self, tier):
+        self._bfs = []
+        for (n, cap, nl, nd) in (self.bfs_quick if tier == "quick" else self.bfs_thorough):
+            h = bfs_tour(n, cap, nl, nd, 400000 if tier == "quick" else 2500000)
+            self._bfs.append(h)
+        return list(self._bfs)
+
+    def extra_coverage(self):
+        tours = getattr(self, "_bfs", [])
+        if not tours:
+            return {}
+        return {"states": sum(h.meta["states"] for h in tours),
+                "transitions": sum(h.meta["transitions"] for h in tours),
+                "exhaustive_closures": [{"domain": h.meta["domain"], "states": h.meta["states"],
+                                         "transitions": h.meta["transitions"], "closed": h.meta["closed"]} for h in tours],
+                "closure_note": "every (state, call) transition of each closed tiny domain is executed on model and implementation "
+                                "and compared incl. the complete internal state; the random histories are NOT exhaustive"}
+
+
 # ------------------------------------------------------------------ C02
 
-class C02(SpecProp):
+class C02(BfsMixin, SpecProp):
     pid = "C02"
     rule = ("add/bind/put/data/next_id histories: 40% order adversaries (put before bind, overwrite of unread data, re-add of "
             "present and of collected ids, reads of ungrouped vertices, binds across groups) continued randomly, 20% boundary "
             "prefixes (exactly N labels, exactly 16 members, exactly 14 groups, last free id), 40% structured random; every "
             "call is judged against the extracted reference model while the reference model says the history is inside the "
-            "limits (preb); non-trivial = the history contains at least one collection; distinct = distinct final state")
+            "limits (preb); plus the breadth-first closure of two tiny domains (2 ids / 3 ids, one label, one datum, N=1): every "
+            "transition of the closed state space is run on model and implementation; non-trivial = the history contains at "
+            "least one collection; distinct = distinct final state")
     assumptions = ["the limits and preconditions are judged by preb (proved equivalent to pre, C02_limits_decided) on the reference run"]
 
     def generate(self, rng, tier):
-        return self.core_mix(rng, tier, 2500, 150000, "c02-")
+        return self.bfs_histories(tier) + self.core_mix(rng, tier, 2500, 150000, "c02-")
 
     def search(self, rng, tier, diverging):
         return self.core_mix(rng, "quick", 12000, 12000, "c02s-")
